@@ -199,6 +199,27 @@ impl OutstandingMessageTracker {
     }
 }
 
+#[cfg(deltio_verif)]
+impl OutstandingMessageTracker {
+    /// Both internal structures, for the verification harness.
+    #[allow(clippy::type_complexity)]
+    pub fn verif_snapshot(&self) -> (Vec<(u64, u64, Instant)>, Vec<(Instant, u64)>) {
+        let id = |a: &AckId| a.to_string().parse::<u64>().unwrap();
+        let mut messages = self
+            .messages
+            .iter()
+            .map(|(k, m)| (id(k), m.message().id.value, m.deadline().time()))
+            .collect::<Vec<_>>();
+        messages.sort();
+        let expirations = self
+            .expirations
+            .iter()
+            .map(|(d, a)| (d.time(), id(a)))
+            .collect::<Vec<_>>();
+        (messages, expirations)
+    }
+}
+
 #[cfg(test)]
 mod tests {
     use super::*;
